@@ -129,6 +129,7 @@ def run(ctx):
     rule_name_closure(ctx, mod, sh, mean)
     rule_ordinals(ctx, mod)
     rule_triad_table(ctx, mod, sh, mean)
+    rule_three_notes(ctx, mod, sh, mean, model)
     rule_trivial(ctx, mod, model)
     rule_recognition(ctx, mod, sh, mean, model)
     ctx.floor("R-C07-1", 40)
@@ -224,6 +225,50 @@ def rule_triad_table(ctx, mod, sh, mean):
         ctx.check(have <= chord, R, "row[%s->%s]" % (pair, name), fi.where(node), "intval == %r -> %r" % (pair, name),
                   "three notes at intervals %s from the first are named %r, but %s = %s does not contain %s"
                   % (toks, name, m.strip(), ORACLE[m], sorted(have - chord)))
+
+
+def rule_three_notes(ctx, mod, sh, mean, model):
+    """Every name offered for three notes denotes a chord that contains the three notes: determine_triad on 'C' (thorough:
+    also F# and Bb) with the other two notes over all 21 spellings, in root position (the recogniser applies one and
+    the same table to every rotation), names decoded with the chord-theory oracle."""
+    R = "R-C07-3"
+    fi = mod.func("determine_triad")
+    names21 = [l + a for l in LETTERS for a in ("", "#", "b")]
+    roots = ("C",) if ctx.tier != "thorough" else ("C", "F#", "Bb")
+
+    def rel(root, n):
+        return ((LETTERS.index(n[0]) - LETTERS.index(root[0])) % 7, (nd.pitch_of_concrete(n) - nd.pitch_of_concrete(root)) % 12)
+    for root in roots:
+        bad, n_names = [], 0
+        for x in names21:
+            for y in names21:
+                try:
+                    ps = paths_of(ctx.repo, fi, lambda: [[root, x, y], True, True], summaries=model, max_depth=40)
+                except (CannotDecide, nd.Shape) as e:
+                    raise AnalysisError("determine_triad([%s, %s, %s]): %s" % (root, x, y, e))
+                if len(ps) != 1 or ps[0].kind != "return" or not isinstance(ps[0].value, list):
+                    bad.append(((root, x, y), "outcome %s" % [(p.kind, short(repr(p.value), 40)) for p in ps]))
+                    continue
+                for name in ps[0].value:
+                    n_names += 1
+                    nm = ps[0].interp.norm_str(name).concrete() if isinstance(name, AbsStr) and ps[0].interp.norm_str(name).is_concrete() else name
+                    if not isinstance(nm, str):
+                        bad.append(((root, x, y), "a name that is not plain text: %r" % (name,)))
+                        continue
+                    k = 1
+                    while k < len(nm) and nm[k] in "#b":
+                        k += 1
+                    nroot, suffix = nm[:k], nm[k:]
+                    m = mean.get(suffix)
+                    if m not in ORACLE or nd.pitch_of_concrete(nroot) is None:
+                        bad.append(((root, x, y), "the name %r cannot be read" % nm))
+                        continue
+                    chord = set(formula(ORACLE[m]))
+                    missing = [n for n in (root, x, y) if rel(nroot, n) not in chord]
+                    if missing:
+                        bad.append(((root, x, y), "is named %r, a chord that does not contain %s" % (nm, missing)))
+        ctx.check(not bad, R, "three-notes[%s]" % root, fi.where(), "determine_triad([%r, x, y], shorthand) for x, y over 21 spellings" % root,
+                  "%d of %d names are wrong, e.g. %s" % (len(bad), n_names, bad[:3]), names=n_names)
 
 
 def rule_trivial(ctx, mod, model):
